@@ -47,6 +47,17 @@ def _read_keys(f, var):
     return req, tested
 
 
+def _sub_var(f, key):
+    """(V, W) of the assignment `V = W['<key>']` in f."""
+    for n in f.own_nodes():
+        if isinstance(n, ast.Assign) and isinstance(n.targets[0], ast.Name) and \
+                isinstance(n.value, ast.Subscript) and \
+                isinstance(n.value.slice, ast.Constant) and \
+                n.value.slice.value == key and isinstance(n.value.value, ast.Name):
+            return n.targets[0].id, n.value.value.id
+    return None, None
+
+
 def r1_keys(ctx):
     dump = ctx.method("Tensor", "dump")
     parse = ctx.method("Tensor", "parse")
@@ -57,8 +68,10 @@ def r1_keys(ctx):
             inner = n.values[0]
     ctx.require(isinstance(inner, ast.Dict), "C13.R1: Tensor.dump dict not found")
     written = set(_dict_keys(inner))
-    req, tested = _read_keys(parse, "y_tensor")
-    treq, ttest = _read_keys(parse, "y_file")
+    yt, yf = _sub_var(parse, "tensor")
+    ctx.require(yt, "C13.R1: Tensor.parse no longer reads y['tensor']")
+    req, tested = _read_keys(parse, yt)
+    treq, ttest = _read_keys(parse, yf)
     if written == req and "tensor" in (treq | ttest):
         ctx.ok("C13.R1", dump, inner, "tensor keys written %s = keys read %s"
                % (sorted(written), sorted(req)))
@@ -68,8 +81,9 @@ def r1_keys(ctx):
                 % (sorted(written), sorted(req), sorted(written ^ req)))
     # root: written as a one-element list, read with [0]
     rootv = inner.values[_dict_keys(inner).index("root")] if "root" in written else None
+    yr, _ = _sub_var(parse, "root")
     rd = [n for n in parse.own_nodes() if isinstance(n, ast.Subscript)
-          and text(n.value) == "y_root" and text(n.slice) == "0"]
+          and yr and text(n.value) == yr and text(n.slice) == "0"]
     if isinstance(rootv, ast.List) and len(rootv.elts) == 1 and rd:
         ctx.ok("C13.R1", dump, rootv, "root written as [root], read as y_root[0]")
     else:
@@ -84,8 +98,10 @@ def r1_keys(ctx):
             fd = n.values[0]
     ctx.require(isinstance(fd, ast.Dict), "C13.R1: fiber2dict dict not found")
     w = set(_dict_keys(fd))
-    req, tested = _read_keys(d2f, "y_fiber")
-    treq, ttest = _read_keys(d2f, "y_payload_dict")
+    yfb, ypd = _sub_var(d2f, "fiber")
+    ctx.require(yfb, "C13.R1: dict2fiber no longer reads y['fiber']")
+    req, tested = _read_keys(d2f, yfb)
+    treq, ttest = _read_keys(d2f, ypd)
     if w == req and "fiber" in (treq | ttest):
         ctx.ok("C13.R1", f2d, fd, "fiber keys written %s = keys read %s"
                % (sorted(w), sorted(req)))
@@ -93,16 +109,43 @@ def r1_keys(ctx):
         ctx.bad("C13.R1", f2d, fd, "fiber2dict writes %s but dict2fiber reads "
                 "%s" % (sorted(w), sorted(req)))
     # rank-0 root goes through payload2dict / the non-fiber leg
-    src = " ".join(text(s) for s in dump.body).replace(" ", "")
-    if "Payload.payload2dict(root)" in src and "root.fiber2dict()" in src:
+    def gat(fn, st):
+        from ..cfg import atomic_guards
+        return {pat.catom(ctx, fn, t, pol) for t, pol in atomic_guards(st)}
+    okd = {"p": False, "f": False}
+    for c in dump.own_nodes():
+        if isinstance(c, ast.Call):
+            from ..cfg import enclosing_stmt
+            g_ = gat(dump, enclosing_stmt(c))
+            if text(c.func) == "Payload.payload2dict" and c.args and \
+                    pat.inline(ctx, dump, c.args[0]).replace(" ", "") == "self.getRoot()" \
+                    and pat.T("isinstance(self.getRoot(), Payload)") in g_:
+                okd["p"] = True
+            if isinstance(c.func, ast.Attribute) and c.func.attr == "fiber2dict" and \
+                    pat.inline(ctx, dump, c.func.value).replace(" ", "") == "self.getRoot()" \
+                    and pat.T("isinstance(self.getRoot(), Payload)", False) in g_:
+                okd["f"] = True
+    if okd["p"] and okd["f"]:
         ctx.ok("C13.R1", dump, dump.node, "rank-0 root dumped through "
                "payload2dict, fiber roots through fiber2dict", text_="Tensor.dump root")
     else:
         ctx.bad("C13.R1", dump, dump.node, "Tensor.dump no longer distinguishes "
                 "a rank-0 (Payload) root from a fiber root", text_="Tensor.dump root")
     fy = ctx.method("Tensor", "fromYAMLfile")
-    src = " ".join(text(s) for s in fy.body).replace(" ", "")
-    if "notisinstance(root,Fiber)" in src and "t._root=Payload(root)" in src:
+    okr = False
+    rv = None
+    for n in fy.own_nodes():
+        if isinstance(n, ast.Assign) and isinstance(n.targets[0], ast.Tuple) and \
+                isinstance(n.value, ast.Call) and text(n.value.func) == "Tensor.parse" \
+                and len(n.targets[0].elts) == 4:
+            rv = text(n.targets[0].elts[1])
+    for n in fy.own_nodes():
+        if isinstance(n, ast.Assign) and isinstance(n.targets[0], ast.Attribute) and \
+                n.targets[0].attr == "_root" and rv and \
+                text(n.value).replace(" ", "") == "Payload(%s)" % rv and \
+                pat.T("isinstance(%s, Fiber)" % rv, False) in gat(fy, n):
+            okr = True
+    if okr:
         ctx.ok("C13.R1", fy, fy.node, "a non-fiber root is reloaded as a rank-0 tensor",
                text_="Tensor.fromYAMLfile rank-0")
     else:
@@ -234,9 +277,22 @@ def r2_default(ctx):
                 "`default` to Fiber.fromUncompressed and Tensor.fromFiber",
                 text_="Tensor.fromUncompressed")
     f = ctx.method("Fiber", "_fillempty")
-    src = " ".join(text(s) for s in f.body).replace(" ", "")
-    if "returnPayload.get(f.getDefault())" in src and \
-            "whileisinstance(f.payloads[0],Fiber)" in src:
+    okl = False
+    for r in pat.returns(f):
+        v = r.value
+        if isinstance(v, ast.Call) and text(v.func) == "Payload.get" and v.args and \
+                isinstance(v.args[0], ast.Call) and isinstance(v.args[0].func, ast.Attribute) \
+                and v.args[0].func.attr == "getDefault" and \
+                isinstance(v.args[0].func.value, ast.Name):
+            lv = v.args[0].func.value.id
+            for w in f.own_nodes():
+                if isinstance(w, ast.While) and text(w.test).replace(" ", "") == \
+                        "isinstance(%s.payloads[0],Fiber)" % lv and any(
+                            isinstance(x, ast.Assign) and text(x.targets[0]) == lv and
+                            text(x.value).replace(" ", "") == "%s.payloads[0]" % lv
+                            for x in w.body):
+                    okl = True
+    if okl:
         ctx.ok("C13.R2", f, f.node, "missing entries are filled with the leaf "
                "fiber's default", text_="_fillempty")
     else:
